@@ -130,6 +130,11 @@ pub static mut O_DEC_ADLEN: [usize; NC] = [0; NC];
 pub static mut O_DEC_CTLEN: [usize; NC] = [0; NC];
 /// verdict the next `decrypt` of object ID returns (the harness makes it symbolic)
 pub static mut O_DEC_VERDICT: [bool; NC] = [true; NC];
+/// 1-based index of the `decrypt` call of object ID that is rejected regardless of the verdict (0 = none)
+pub static mut O_DEC_FAIL_AT: [u32; NC] = [0; NC];
+/// nonces seen by the first four encrypt / decrypt calls of object ID
+pub static mut O_ENC_NONCES: [[u64; 4]; NC] = [[0; 4]; NC];
+pub static mut O_DEC_NONCES: [[u64; 4]; NC] = [[0; 4]; NC];
 /// set when any encrypt/decrypt of object ID was given the reserved nonce 2^64-1
 pub static mut O_SAW_MAX: [bool; NC] = [false; NC];
 /// set when a call violated the buffer contract every built-in backend has (natively: slice-index panic)
@@ -155,6 +160,9 @@ impl<const ID: usize> Cipher for OCipher<ID> {
     }
     fn encrypt(&self, nonce: u64, ad: &[u8], pt: &[u8], out: &mut [u8]) -> usize {
         unsafe {
+            if (O_ENC_CALLS[ID] as usize) < 4 {
+                O_ENC_NONCES[ID][O_ENC_CALLS[ID] as usize] = nonce;
+            }
             O_ENC_CALLS[ID] = O_ENC_CALLS[ID].wrapping_add(1);
             O_ENC_NONCE[ID] = nonce;
             O_ENC_ADLEN[ID] = ad.len();
@@ -177,6 +185,9 @@ impl<const ID: usize> Cipher for OCipher<ID> {
     }
     fn decrypt(&self, nonce: u64, ad: &[u8], ct: &[u8], out: &mut [u8]) -> Result<usize, Error> {
         unsafe {
+            if (O_DEC_CALLS[ID] as usize) < 4 {
+                O_DEC_NONCES[ID][O_DEC_CALLS[ID] as usize] = nonce;
+            }
             O_DEC_CALLS[ID] = O_DEC_CALLS[ID].wrapping_add(1);
             O_DEC_NONCE[ID] = nonce;
             O_DEC_ADLEN[ID] = ad.len();
@@ -189,7 +200,7 @@ impl<const ID: usize> Cipher for OCipher<ID> {
                 assert!(false, "Cipher::decrypt called with a ciphertext shorter than the tag or an output buffer smaller than the plaintext (built-in backends panic here)");
                 return Err(Error::Decrypt);
             }
-            if !O_DEC_VERDICT[ID] {
+            if !O_DEC_VERDICT[ID] || O_DEC_FAIL_AT[ID] == O_DEC_CALLS[ID] {
                 return Err(Error::Decrypt);
             }
         }
@@ -491,6 +502,9 @@ pub fn reset_all() {
         O_DEC_ADLEN = [0; NC];
         O_DEC_CTLEN = [0; NC];
         O_DEC_VERDICT = [true; NC];
+        O_DEC_FAIL_AT = [0; NC];
+        O_ENC_NONCES = [[0; 4]; NC];
+        O_DEC_NONCES = [[0; 4]; NC];
         O_SAW_MAX = [false; NC];
         O_CONTRACT_BROKEN = false;
         O_COPY = true;
